@@ -31,7 +31,7 @@ func writeStep(g *vkit.Rand, big bool) hStep {
 		n = 1 << 20
 	}
 	c := pickInt(g, writeChunks)
-	if c < 100 && n > 20000 {
+	if c < 100 && n > 3000 {
 		c = 512 + g.Intn(4000)
 	}
 	return hStep{Op: "write", N: n, Chunk: c, Flush: g.Chance(1, 3)}
@@ -150,7 +150,7 @@ func genUpload(g *vkit.Rand, c *caseSpec) {
 		case x < 97:
 			c.Ops = append(c.Ops, op{K: "rst", ID: id, N: 5}, op{K: "sync"})
 		default:
-			c.Ops = append(c.Ops, op{K: "waitdone", Tok: tok})
+			c.Ops = append(c.Ops, op{K: "sync"})
 		}
 	}
 }
@@ -266,7 +266,7 @@ func genDownload(g *vkit.Rand, c *caseSpec) {
 			overflowDone = true
 			c.Ops = append(c.Ops, op{K: "wu", ID: 0, N: 1<<31 - 1}, op{K: "wu", ID: 0, N: 1<<31 - 1}, op{K: "sync"})
 		default:
-			c.Ops = append(c.Ops, op{K: "waitdone", Tok: tok})
+			c.Ops = append(c.Ops, op{K: "sync"})
 		}
 	}
 }
